@@ -45,24 +45,47 @@ def ecs_family(ctx, thorough):
             raise vf.MachineryError("vacuous: the authority hardly ever echoed another subnet with a non-zero scope (%s)" % cnt)
 
 
+def _denial_steps(b):
+    """One simulated behaviour of EcsDenial.tla -> steps (Ask(kind, born, flags, shape) | Birth)."""
+    steps = []
+    for i in range(1, len(b)):
+        lab = b[i][0]
+        if lab.startswith("Birth"):
+            steps.append({"kind": "birth"})
+            continue
+        m = re.match(r'Ask\("(\w+)",\s*"(\w+)"', lab)
+        if not m:
+            raise vf.MachineryError("unexpected label " + lab)
+        last = b[i][1]["last"]
+        if last["kind"] != m.group(1) or last["born"] != m.group(2):
+            raise vf.MachineryError("label %s does not match state %r" % (lab, last))
+        steps.append({"kind": m.group(1), "born": m.group(2), "do": bool(last["f"]["do"]), "ad": bool(last["f"]["ad"]),
+                      "shape": "" if last["shape"] == "none" else last["shape"], "out": last["out"], "sub": bool(last["sub"]),
+                      "cut": bool(b[i - 1][1]["cut"])})
+    return steps
+
+
 def denial_family(ctx, thorough, focus=""):
-    """EcsDenial.tla: ECS- and CD-carrying queries neither consume nor create shared synthesised denials."""
+    """EcsDenial.tla: ECS- and CD-carrying queries neither consume nor create shared synthesised denials -- whatever
+    the shape of the subnet option (real prefix, /0, the RFC 7871 empty option), message- or wire-born, at the cache's
+    hit ladder and (resolver tier) at the Store the resolver reads for its private DS / DNSKEY sub-queries."""
     ctx.tlc("Ecs", "MC_EcsDenial.tla", "MC_EcsDenial.cfg", workers=2, timeout=300, heap="2g")
-    for cfg, want in (("MC_EcsDenial_mutant.cfg", ("NeverCreates", "NeverConsumes", "ADDiscipline")), ("MC_EcsDenial_reach.cfg", ("NeverSynth",))):
+    # negative twins: the marker lost on the wire-born detach; the wire-born parser not taking the empty option for
+    # ECS (seeded C19-r3-1); the resolver's sub-queries reaching the Store without the marker (seeded C19-r3-3);
+    # reachability of a synthesised answer and of a marked tree passing the Store under a live cut
+    for cfg, want in (("MC_EcsDenial_mutant.cfg", ("NeverCreates", "NeverConsumes", "ADDiscipline")),
+                      ("MC_EcsDenial_mutant_empty.cfg", ("NeverCreates", "NeverConsumes")),
+                      ("MC_EcsDenial_mutant_sub.cfg", ("NeverConsumes",)),
+                      ("MC_EcsDenial_reach.cfg", ("NeverSynth",)), ("MC_EcsDenial_reach_sub.cfg", ("NeverSubPassed",))):
         r = ctx.tlc("Ecs", "MC_EcsDenial.tla", cfg, workers=2, timeout=300, heap="2g", must_pass=False, count=False, tag="must-fail")
         if r.violated not in want:
             raise vf.MachineryError("%s: expected %s to fail, got %r" % (cfg, want, r.violated))
     behs = ctx.tlc_behaviours("Ecs", "MC_EcsDenial.tla", "Sim_EcsDenial.cfg", num=150 if not thorough else 2000, depth=7)
+    # the stub tier (edns + cache, a handler in the resolver's place) has no namespace that could change: Birth is
+    # projected away there (the driver keeps its own account of the cut); the resolver tier below plays it
     out, seen = [], set()
     for b in behs:
-        steps = []
-        for i in range(1, len(b)):
-            m = re.match(r'Ask\("(\w+)",\s*"(\w+)"', b[i][0])
-            if not m:
-                raise vf.MachineryError("unexpected label " + b[i][0])
-            last = b[i][1]["last"]
-            steps.append({"kind": m.group(1), "born": m.group(2), "do": bool(last["f"]["do"]), "ad": bool(last["f"]["ad"]),
-                          "out": last["out"], "cut": bool(b[i - 1][1]["cut"])})
+        steps = [s for s in _denial_steps(b) if s["kind"] != "birth"]
         k = repr(steps)
         if steps and k not in seen:
             seen.add(k)
@@ -79,6 +102,74 @@ def denial_family(ctx, thorough, focus=""):
         raise vf.MachineryError("EcsDenial replay skipped: %s" % res["skipped"][:3])
     if cnt.get("synthesised", 0) < 10 and not res.get("violations"):
         raise vf.MachineryError("vacuous: the shared cut was hardly ever used (%s)" % cnt)
+    if not res.get("violations") and not focus:
+        for tag in ("ecs-empty/wire", "ecs-empty/msg", "ecs-zero/wire", "ecs-v6/wire", "ecs/wire"):
+            if cnt.get("carried/" + tag, 0) < 3:
+                raise vf.MachineryError("vacuous: subnet option shape %s hardly ever sent (%s)" % (tag, cnt))
+    if not focus:
+        denial_resolver_tier(ctx, thorough)
+
+
+def denial_resolver_tier(ctx, thorough):
+    """EcsDenial.tla with Birth, on the full edns + cache + resolver pipeline against a signed scripted namespace:
+    the second site at which a request tree meets shared denial state is the Store the resolver reads for its private
+    DS / DNSKEY look-ups ("even through ... internal sub-queries")."""
+    want = 24 if not thorough else 120
+    behs = ctx.tlc_behaviours("Ecs", "MC_EcsDenial.tla", "Sim_EcsDenial_sub.cfg", num=2000 if not thorough else 8000, depth=6)
+    strata, seen = {}, set()
+    for b in behs:
+        steps = _denial_steps(b)
+        k = repr(steps)
+        if len(steps) < 3 or k in seen:
+            continue
+        seen.add(k)
+        kinds = [s["kind"] for s in steps]
+        if "birth" not in kinds:
+            cls = "2nobirth"
+        elif any(s.get("sub") for s in steps):
+            # a marked validating tree reads the new zone's DNSKEY while the cut is there; sub-strata by the option
+            # shape and entry of that step, so every seed plays each of them (stable violation keys)
+            f = [s for s in steps if s.get("sub")][0]
+            cls = "0sub/%s/%s" % (f["shape"], f["born"])
+        else:
+            cls = "1birth"
+        strata.setdefault(cls, []).append({"steps": steps})
+    rnd = __import__("random").Random(ctx.seed)
+    picked = []
+    subs = sorted(k for k in strata if k.startswith("0sub/"))
+    if len(subs) < 4:
+        raise vf.MachineryError("EcsDenial resolver tier: the simulation reaches the sub site under a live cut only as %s" % subs)
+    for k in subs:
+        rnd.shuffle(strata[k])
+    quota = max(len(subs), int(round(want * 0.6)))
+    while len(picked) < quota and any(strata[k] for k in subs):
+        for k in subs:
+            if strata[k] and len(picked) < quota:
+                picked.append(strata[k].pop())
+    nsub = len(picked)
+    for cls in ("1birth", "2nobirth"):
+        pool = strata.get(cls, [])
+        rnd.shuffle(pool)
+        picked += pool[:max(2, int(round(want * 0.2)))]
+    for p in picked:
+        ctx._distinct.add("ecsdenial-resolver:" + repr(p["steps"]))
+    ctx.overlay_tags.add("c19")     # overlay/middleware/cache/verif_c19_shim.go also when C06 borrows this family
+    res = ctx.go_driver("./c19", "TestEcsDenialResolver", {"behaviours": picked}, name="ecs_denial_resolver", timeout=900)
+    ctx.take_driver_result(res, "[EcsDenial resolver] ")
+    cnt = res.get("counters", {})
+    ctx.cov["replay"]["ecs_denial_resolver"] = {"behaviours": len(picked), "cases": res["cases"], "drift": res["drift"],
+                                                "drift_notes": res.get("drift_notes", [])[:5], "counters": cnt,
+                                                "played_sub_behaviours": nsub}
+    if res.get("skipped"):
+        raise vf.MachineryError("EcsDenial resolver replay skipped: %s" % res["skipped"][:3])
+    if res.get("violations"):
+        return
+    if (cnt.get("synthesised", 0) < 5 or cnt.get("births", 0) < nsub or cnt.get("sub_site_passed_under_cut", 0) < 4
+            or cnt.get("obs/pos", 0) < 8 or cnt.get("obs/down", 0) < 8):
+        raise vf.MachineryError("vacuous: EcsDenial resolver tier (%s)" % cnt)
+    if res["drift"] > res["cases"] // 5:
+        raise vf.MachineryError("EcsDenial resolver tier: %d drift notes on %d steps (binding lost): %s"
+                                % (res["drift"], res["cases"], res.get("drift_notes", [])[:3]))
 
 
 def resolver_scope_observation(ctx):
@@ -106,6 +197,14 @@ def resolver_scope_observation(ctx):
 def replay_record(ctx, rec):
     """--replay of a violation recorded by the Ecs driver: the recorded history alone."""
     rp = rec.get("replay", rec)
+    if isinstance(rp, dict) and rp.get("driver") in ("ecs-denial", "ecs-denial-resolver") and rp.get("steps"):
+        # a recorded EcsDenial history (stub tier / resolver tier): the statement's model, then the history alone
+        ctx.tlc("Ecs", "MC_EcsDenial.tla", "MC_EcsDenial.cfg", workers=2, timeout=300, heap="2g")
+        test = "TestEcsDenialBypass" if rp["driver"] == "ecs-denial" else "TestEcsDenialResolver"
+        res = ctx.go_driver("./c19", test, {"behaviours": [{"steps": rp["steps"]}], "focus": ""}, name="ecs_denial_replay_file", timeout=600)
+        ctx.take_driver_result(res, "[replay] ")
+        ctx.cov["replay"]["replayed_file"] = {"cases": res["cases"], "driver": rp["driver"]}
+        return True
     if not isinstance(rp, dict) or rp.get("driver") != "ecs" or not rp.get("steps"):
         return False
     inp = {"enabled": rp["enabled"], "fwdMax": rp.get("fwdMax", 24), "floor": rp["floor"], "addrs": rp.get("addrs", ADDRS),
@@ -130,6 +229,10 @@ def run(ctx, replay):
                        "subnet option kinds x OPT shapes x upstream content incl. scoped answers), concretised and served "
                        "by the real default chain; the upstream query seen by the scripted tail and the client reply are "
                        "judged by the ECS predicates")
+    import os
+    if os.environ.get("VERIF_C19_ONLY") == "denial":     # development switch: the EcsDenial family alone
+        denial_family(ctx, thorough)
+        return
     fams = ["ecs", "cookies"]
     sc.run_family_models(ctx, fams, thorough)
     sc.regression_model(ctx)
